@@ -23,7 +23,7 @@ Record case := {
 
 (* SequenceID columns whose parse from an EMPTY buffer raises at /repo HEAD (string_array of a 0x0 matrix);
    one-line switch: `:= []` once notes/C05.fix-2.diff is applied *)
-Definition sid_fields (l : list nat) : list nat := l.
+Definition sid_fields (l : list nat) : list nat := [].
 Definition fmt_of (tag : Z) : fmt :=
   match tag with
   | 0 => {| f_kinds := [KStr; KInt 0; KInt 0]; f_layout := LDelim; f_concat := true; f_nowrite := []; f_sid := sid_fields [0%nat] |}
@@ -33,7 +33,7 @@ Definition fmt_of (tag : Z) : fmt :=
   | 4 => {| f_kinds := [KStr; KInt (-1); KStr; KStr; KStr; KStr; KStr; KStr]; f_layout := LDelim; f_concat := true;
             f_nowrite := [7%nat]; f_sid := sid_fields [0%nat] |}
   | _ => {| f_kinds := [KStr; KInt 0; KStr; KInt 0; KInt 0; KStr; KStr; KInt 0; KInt 0; KStr; KStr; KStr];
-            f_layout := LDelim; f_concat := true; f_nowrite := []; f_sid := sid_fields [0%nat; 2%nat] |}
+            f_layout := LSam; f_concat := true; f_nowrite := []; f_sid := sid_fields [0%nat; 2%nat] |}
   end.
 (* formats with a ragged `str` column: row access t[i] goes through npstructures' RaggedView2._get_row, which
    raises under NumPy 2 — the model says what the code intends (the row); an error is tolerated there *)
